@@ -1033,7 +1033,7 @@ class SQLModel:
             # need a non-trivial select here
             terms = OrderedDict()
             for k in using:
-                terms[k] = k  # these get quoted later
+                terms[k] = None  # pass through, quoted on emission
             view_name = "table_reference_" + str(temp_id_source[0])
             temp_id_source[0] = temp_id_source[0] + 1
             return data_algebra.near_sql.NearSQLUnaryStep(
@@ -1965,7 +1965,7 @@ class SQLModel:
             v = terms[k]
         except KeyError:
             pass
-        if (v is None) or (v == k):
+        if v is None:
             return self.quote_identifier(k)
         return v + " AS " + self.quote_identifier(k)
 
